@@ -103,7 +103,8 @@ pub fn run(case: &str) -> String {
         let nreq = rng.range(1, maxreq.max(1));
         // 0 client close, 1 connection: close on last request, 2 handler Err (of several io::ErrorKinds), 3 /close route,
         // 4 the client resets the connection (RST) while its last request is still in the handler
-        let ending = rng.below(5);
+        // 5 the client sends half a request head and then half-closes: the server must give the connection up
+        let ending = rng.below(6);
         let errpath = *rng.pick(&["/err", "/errk/wb", "/errk/to", "/errk/intr", "/err"]);
         // an eager client uses slow handlers (the response is sent first, then the handler lingers): its next request,
         // or its close, reaches the server while the previous request is still in flight on a worker
@@ -175,6 +176,18 @@ pub fn run(case: &str) -> String {
                         } else if !r.starts_with("200,") { return Err(format!("conn {ci}: {path} got {r}")); }
                     }
                 }
+            }
+            if ending == 5 {
+                // (seed C15-j: an end of stream inside a head was handed back to the parser as "incomplete", for ever)
+                s.write_all(b"GET /none HT").map_err(|_| "write")?;
+                let _ = s.shutdown(std::net::Shutdown::Write);
+                s.set_read_timeout(Some(Duration::from_secs(2))).unwrap();
+                let mut tmp = [0u8; 64];
+                return match s.read(&mut tmp) {
+                    Ok(0) => Ok(()),
+                    Ok(n) => Err(format!("conn {ci}: {n} bytes in answer to half a head")),
+                    Err(e) if e.kind() == std::io::ErrorKind::WouldBlock || e.kind() == std::io::ErrorKind::TimedOut => Err(format!("conn {ci}: not closed by the server after the end of the stream inside a head")),
+                    Err(_) => Ok(()) };
             }
             if ending == 0 {
                 // half of the closing clients only shut down their sending side and wait for the server's close
@@ -264,7 +277,7 @@ pub fn gen(ctx: &Ctx) {
     let mut out = Out::new(&ctx.dir, "epoll");
     out.rule = "real serve_epoll executions: 1..4 workers, 1..8 concurrent lock-step clients with 1..5 requests each (requests sometimes split in two segments, random sub-millisecond pauses), a third of the clients eager \
                 (slow handlers that answer first and linger 2-12 ms, so the next request or the close arrives while the previous request is in flight), endings \
-                {client close or half-close, Connection: close, handler Err of kinds Other / WouldBlock / TimedOut / Interrupted, response with close, RST while the last request is in its handler}; every third run with >= 2 workers has workers-1 stalled clients (half a head until all others are done), 0..2 injected EPOLL_CTL_ADD failures; client connects staggered over 9 ms in two thirds of the runs and a setup hook that lingers 0 / 0.3 / 1.5 / 4 ms on the event-loop thread (so that \
+                {client close or half-close, Connection: close, handler Err of kinds Other / WouldBlock / TimedOut / Interrupted, response with close, RST while the last request is in its handler, half a request head followed by the client's FIN}; every third run with >= 2 workers has workers-1 stalled clients (half a head until all others are done), 0..2 injected EPOLL_CTL_ADD failures; client connects staggered over 9 ms in two thirds of the runs and a setup hook that lingers 0 / 0.3 / 1.5 / 4 ms on the event-loop thread (so that \
                 connections are closed by workers while their events sit in the loop's batch: the loop-side reclamation path); every third run's setup hook hands back a clone of the accepted stream; every fourth run interrupts the loop's epoll_wait with signals; a burst run (one worker held 12 ms while 89 connections become ready); every client checks that its responses arrive in order and belong to its \
                 own requests; the hook event log is replayed through the Coq transition system. Schedules are sampled. non-trivial = at least 2 connections".into();
     let n = if ctx.thorough { 1500 } else { 80 };
